@@ -192,6 +192,9 @@ func (c c03Case) placements() map[string][]string {
 // c03Check runs every placement on a fresh VM; each must end with a list whose
 // elements all render like the top-level result.
 func c03Check(c c03Case) (why string, grew bool, skip string) {
+	if c.Other != "" && overBudget(c.Lib, []string{"[" + c.Other + "]"}) {
+		c.Other = ""
+	}
 	if c.Other != "" {
 		// the other activation must itself succeed, or the placements that run it first are different programs
 		if o, internal := runEmbedding(c.Lib, []string{"[" + c.Other + "]"}); internal != "" || o.err != "" || strings.HasPrefix(o.val, "ABORT") || strings.HasPrefix(o.val, "RESIDUE") {
